@@ -235,10 +235,77 @@ def pipeline(sym, tier):
     if dropped:
         r.wit.add("queue_full_drop")
     if st.requests_rejected:
-        r.wit.add("server_rejected_after_dequeue")
+        r.bad("driver_fetches_work_only_for_a_free_worker_slot", {"server_rejected": st.requests_rejected, "completed": labels, "queue_dropped": dropped,
+                                                                    "arrivals_ns": ts, "via_forwarder": via, "concurrency": k, "queue_capacity": qcap})
     if any(via) and not all(via) and len(set(ts)) < m:
         r.wit.add("same_instant_different_hops")
     r.obs = {"done": done, "dropped": dropped, "rejected": st.requests_rejected}
+    return r
+
+
+def dynamic_limit(sym, tier):
+    """Server whose concurrency limit is changed while it runs (DynamicConcurrency.set_limit at a
+    symbolic instant to a symbolic value, up or down): no item starts service when that would put
+    more items in service than the limit in force, the worker never has to turn away an item the
+    driver fetched, everything accepted completes exactly once, nothing is stranded."""
+    from happysimulator.components.server.concurrency import DynamicConcurrency
+    from happysimulator.core.event import Event
+    r = Result()
+    m = 4 if tier == "quick" else 5
+    k0 = 1 + sym.choice("initial_limit_minus_1", 3)
+    k1 = 1 + sym.choice("new_limit_minus_1", 3)
+    change_at = sym.int("limit_change_at_ns", 0, 6)
+    model = DynamicConcurrency(initial=k0, min_limit=1, max_limit=3)
+    done = []
+    sink = Sink("sink", done)
+    srv = Server("srv", concurrency=model, service_time=ConstantLatency(3e-9), queue_capacity=8, downstream=sink)
+    sim = Simulation(entities=[srv, sink])
+    mon = Monitor(sim, cap=60)
+    ts = [sym.int(f"arrive{i}", 0, 3) for i in range(m)]
+    problems = []
+    last = {"active": 0}
+
+    def on_event(e):
+        a = srv.active_requests
+        if a > last["active"] and a > model.current_limit:
+            problems.append(("started_above_limit", sim._clock.now.nanoseconds, a, model.current_limit))
+        last["active"] = a
+
+    def on_advance(t):
+        if srv.depth > 0 and srv.has_capacity():
+            problems.append(("stranded", t.nanoseconds, srv.depth, srv.active_requests, model.current_limit))
+
+    sim.control.on_event(on_event)
+    sim.control.on_time_advance(on_advance)
+    evs = [mk_event(ts[i], f"req{i}", srv) for i in range(m)]
+    evs.append(Event.once(Instant(change_at), "set_limit", lambda _e: model.set_limit(k1)))
+    sim.schedule(evs)
+    try:
+        sim.run()
+    except SpinDetected:
+        pass
+    mon.judge(r, "dynamic_limit")
+    for p in problems[:1]:
+        if p[0] == "stranded":
+            r.bad("no_time_passes_while_item_waits_and_worker_free", {"at_ns": p[1], "waiting": p[2], "in_service": p[3], "limit": p[4], "change": [change_at, k0, k1]})
+        else:
+            r.bad("no_item_starts_service_above_the_limit_in_force", {"at_ns": p[1], "in_service": p[2], "limit": p[3], "arrivals_ns": ts, "change": [change_at, k0, k1]})
+    labels = [l for (l, t) in done]
+    st = srv.stats
+    if st.requests_rejected:
+        r.bad("driver_fetches_work_only_for_a_free_worker_slot", {"server_rejected": st.requests_rejected, "completed": labels, "arrivals_ns": ts, "change": [change_at, k0, k1]})
+    if len(set(labels)) != len(labels):
+        r.bad("request_completed_at_most_once", labels)
+    if not mon.spun:
+        if srv.depth != 0 or srv.active_requests != 0:
+            r.bad("pipeline_drains_at_quiescence", srv.depth, srv.active_requests)
+        if len(labels) + srv.stats_dropped + st.requests_rejected != m:
+            r.bad("every_request_completed_or_counted_as_rejected", {"completed": labels, "offered": m})
+    if k1 < k0:
+        r.wit.add("limit_lowered")
+    if k1 > k0:
+        r.wit.add("limit_raised")
+    r.obs = {"done": done, "rejected": st.requests_rejected}
     return r
 
 
@@ -246,9 +313,26 @@ def _pipe_classify(clause, draws, obs):
     return None
 
 
+def _dyn_classify(clause, draws, obs):
+    """Known finding: DynamicConcurrency.set_limit() raising the limit does not wake the queue driver, so
+    waiting items stay queued until the next arrival or completion.  Recognised only when the free slot
+    exists solely because of the raise (in service >= old limit, < new limit) after the change instant."""
+    import json
+    if not clause.startswith("no_time_passes_while_item_waits_and_worker_free"):
+        return None
+    try:
+        d = json.loads(clause.split(": ", 1)[1])
+    except Exception:
+        return None
+    at, k0, k1 = d["change"]
+    if k1 > k0 and d["at_ns"] > at and k0 <= d["in_service"] < k1 and d["limit"] == k1:
+        return "raised-concurrency-limit-does-not-wake-the-driver"
+    return None
+
+
 MANIFEST = {
-    "note": "Policy keys, capacities, arrival instants are symbolic; service times from a concrete table (1 ns, 3 ns). Server.requests_rejected is "
-            "accepted as 'rejected-and-counted'. Trusted: CrossHair/z3 and the reference queue models in the harness.",
+    "note": "Policy keys, capacities, arrival instants are symbolic; service times from a concrete table (1 ns, 3 ns). An item the queue accepted and the worker then turned away "
+            "(Server.requests_rejected) is a violation: 'rejected-and-counted' is the queue's own drop counter. Trusted: CrossHair/z3 and the reference queue models in the harness.",
 }
 
 HARNESSES = [
@@ -272,4 +356,10 @@ HARNESSES = [
       bounds=lambda tier: {"requests": 3 if tier == "quick" else 4, "arrivals": "symbolic ns [0,4], direct or via one forwarder hop", "concurrency": [1, 2],
                            "queue capacity": "symbolic [1,3]", "service ns": [1, 3]},
       outside=["load balancers / routers upstream", "industrial variants (balking, reneging, batch, conveyor, gate, shift schedule)", "weighted concurrency"]),
+    H(name="c08_dynamic_limit", fn=dynamic_limit, shape="S", budget=lambda tier: 900.0 if tier == "quick" else 3000.0,
+      cubes=lambda tier: [{"initial_limit_minus_1": a, "new_limit_minus_1": b} for a in range(3) for b in range(3)],
+      require=lambda tier: ["limit_lowered", "limit_raised"], classify=_dyn_classify,
+      functions=["DynamicConcurrency.set_limit/acquire/release/has_capacity", "QueueDriver._handle_notify/_handle_work_payload", "Server.handle_queued_event"],
+      bounds=lambda tier: {"requests": 4 if tier == "quick" else 5, "arrivals": "symbolic ns [0,3]", "service ns": 3, "limit": "1..3 -> 1..3 at a symbolic ns in [0,6]"},
+      outside=["ShiftedServer / ShiftSchedule capacity changes", "more than one limit change"]),
 ]
